@@ -326,6 +326,25 @@ fn check_in(dir: &Path, case: &Case, obs: &mut Obs) -> CaseResult {
             protected.push(n);
         }
     }
+    if case.pattern.contains("{}/") && !case.delete_roller && !case.pattern.contains("linkdir") {
+        // the index sits in a directory component: the slot directories are shared with somebody else's files (a
+        // second appender with the same layout, `arch/{}/a.log` next to `arch/{}/b.log`) - bystanders like any other
+        for o in -1..c + 2 {
+            if (case.base as i64 + o) < 0 || (case.base as i64 + o) > u32::MAX as i64 {
+                continue;
+            }
+            let slot = name(o);
+            let Some((parent, _)) = slot.rsplit_once('/') else { continue };
+            let n = format!("{}/neighbour-of-another-appender.log", parent);
+            let clash = (-4..c + 8).any(|o| (case.base as i64 + o) >= 0 && name(o) == n) || n == active_key || n.starts_with('/');
+            if clash || std::fs::symlink_metadata(dir.join(&n)).is_ok() || dir.join(parent).is_file() || std::fs::symlink_metadata(dir.join(parent)).map_or(false, |m| m.file_type().is_symlink()) {
+                continue;
+            }
+            write_file(&dir.join(&n), format!("neighbour at offset {}", o).as_bytes());
+            protected.push(n);
+        }
+        obs.class("neighbours-inside-the-slot-directories");
+    }
     for d in &case.bystander_dirs {
         std::fs::create_dir_all(dir.join(d)).unwrap();
     }
